@@ -31,8 +31,8 @@ import (
 //
 // A case is a list of requests, each issued by a thread (t<i>: executes its
 // requests one after the other; all threads of a phase run concurrently)
-// through a client object (websocket: onet.Client kept-alive k<j> or
-// single-use o<j>; REST: http.Client with or without keep-alive), against the
+// through a client object (websocket: onet.Client kept-alive k<j>, kept-alive
+// with a short read time-out q<j>, or single-use o<j>; REST: http.Client with or without keep-alive), against the
 // echo/transform service of c14svc.go on a real server (TCP LocalTest with its
 // websocket/HTTP listener). `barrier` waits for all threads; `calls` reads
 // the number of handler invocations.
@@ -99,6 +99,11 @@ func (e *c14env) wsClient(name string) *onet.Client {
 			c = onet.NewClient(fix.Suite, c14ServiceName)
 		}
 		c.ReadTimeout = 8 * time.Second
+		if strings.HasPrefix(name, "q") {
+			// a kept-alive client that stops waiting for a reply early
+			c = onet.NewClientKeep(fix.Suite, c14ServiceName)
+			c.ReadTimeout = c14QuickTimeout
+		}
 		e.ws[name] = c
 	}
 	return c
@@ -200,6 +205,8 @@ func c14wsErr(err error) string {
 		class = "encode"
 	case strings.Contains(s, "This service doesn't exist"):
 		class = "noservice"
+	case strings.Contains(s, "i/o timeout"):
+		class = "timeout"
 	case strings.Contains(s, "connection write"):
 		class = "write"
 	case strings.Contains(s, "dial:"):
@@ -501,17 +508,21 @@ func c14exec(c *h.Ctx, cs *h.Case) {
 // with exactly that reply, ("error", "") when it must be answered with an
 // error, ("any", "") when the property does not say (net/http routing).
 // called tells whether the handler has to be invoked.
-func c14owed(tk []string) (kind, want string, called bool) {
+func c14owed(tk []string, kept *[]byte) (kind, want string, called bool) {
 	reply := func(tag string, a int64, s string, b []byte) (string, string, bool) {
 		switch s {
 		case "fail", "panic", "nil":
+			return "error", "", true
+		}
+		if s == "slow" && tk[1] == "ws" && strings.HasPrefix(tk[3], "q") && (tag == "Echo" || tag == "Swap") {
+			// the client gives up before the reply comes: an error for this request only
 			return "error", "", true
 		}
 		r, _ := c14Transform(tag, a, s, b)
 		return "reply", c14showReply(r), true
 	}
 	if tk[1] == "ws" {
-		tag := map[string]string{"C14Echo": "Echo", "C14Swap": "Swap", "C14Key": "Key"}[tk[4]]
+		tag := map[string]string{"C14Echo": "Echo", "C14Swap": "Swap", "C14Key": "Key", "C14Keep": "Keep"}[tk[4]]
 		if tag == "" {
 			return "error", "", false
 		}
@@ -531,6 +542,12 @@ func c14owed(tk []string) (kind, want string, called bool) {
 		var m C14Echo
 		if err := protobuf.Decode(buf, &m); err != nil {
 			return "error", "", false
+		}
+		if tag == "Keep" {
+			// the handler answers with the bytes it retained from the previous request
+			prev := *kept
+			*kept = append([]byte{}, m.B...)
+			return reply(tag, m.A, m.S, prev)
 		}
 		return reply(tag, m.A, m.S, m.B)
 	}
@@ -629,6 +646,7 @@ func c14oracle(cs *h.Case) {
 	classes := map[string]bool{}
 	wantCalls := int64(0)
 	var calls int64 = -1
+	var kept []byte // what the C14Keep handler holds (requests to that path come from one thread)
 	for i, op := range cs.Ops {
 		tk := strings.Fields(op)
 		obs := cs.Impl[i]
@@ -647,7 +665,7 @@ func c14oracle(cs *h.Case) {
 			// a pipelined message behind the one that closed the connection: never read
 			continue
 		}
-		kind, want, called := c14owed(tk)
+		kind, want, called := c14owed(tk, &kept)
 		if called {
 			wantCalls++
 		}
@@ -665,7 +683,7 @@ func c14oracle(cs *h.Case) {
 		case "error":
 			isErr := false
 			if tk[1] == "ws" {
-				isErr = strings.HasPrefix(obs, "close 1002 ") || obs == "close 1006 other" || obs == "close"
+				isErr = strings.HasPrefix(obs, "close 1002 ") || obs == "close 1006 other" || obs == "close" || obs == "close - timeout"
 			} else {
 				isErr = len(obs) > 3 && obs[0] >= '4' && obs[0] <= '5' && !strings.HasPrefix(obs, "200")
 			}
@@ -1037,6 +1055,18 @@ func c14genCases(c *h.Ctx, yield func(*h.Case)) {
 		emit(cs)
 	}
 
+	{
+		// a kept client after a reply that came too late (seed C14r2-B)
+		cs := &h.Case{Class: "corpus:reply-too-late"}
+		enc := func(a int64, s string) string {
+			b, _ := protobuf.Encode(&C14Echo{A: a, S: s})
+			return h.Hex(b)
+		}
+		cs.Ops = append(cs.Ops, "c14 ws t1 q1 C14Echo "+enc(1, "before"), "c14 ws t1 q1 C14Echo "+enc(2, "slow"),
+			"c14 ws t1 q1 C14Echo "+enc(3, "after"), "c14 ws t1 q1 C14Echo "+enc(4, "again"))
+		emit(cs)
+	}
+
 	n := c.Pick(200, 2500)
 	for it := 0; it < n && !c.TooManyFails(); it++ {
 		// sequences on one kept websocket connection
@@ -1133,6 +1163,43 @@ func c14genCases(c *h.Ctx, yield func(*h.Case)) {
 			cs.Ops = append(cs.Ops, fmt.Sprintf("c14 ws t1 %s C14Key %s", cl, h.Hex(buf)))
 		}
 		emit(cs)
+
+		// a handler that retains a []byte field of its argument: later requests on the same kept
+		// connection must not change what it holds
+		cs = &h.Case{Class: "retained-bytes"}
+		cl = []string{"k1", "k1", "o1"}[r.Intn(3)]
+		for i, m := 0, 4+r.Intn(10); i < m; i++ {
+			b := make([]byte, 3+r.Intn(6))
+			r.Read(b)
+			buf, err := protobuf.Encode(&C14Keep{A: g.int(true), S: g.okstr(), B: b})
+			if err != nil {
+				panic(err)
+			}
+			c.Count("ws:retained-bytes")
+			c.Count("client:" + cl[:1])
+			cs.Ops = append(cs.Ops, fmt.Sprintf("c14 ws t1 %s C14Keep %s", cl, h.Hex(buf)))
+		}
+		emit(cs)
+
+		if it%12 == 0 {
+			// a reply that takes longer than the client waits: an error for that request, the
+			// next requests of the same kept client are served
+			cs = &h.Case{Class: "reply-too-late"}
+			enc := func(s string) string {
+				buf, _ := protobuf.Encode(&C14Echo{A: g.int(true), S: s, B: g.bytes()})
+				return h.Hex(buf)
+			}
+			path := []string{"C14Echo", "C14Swap"}[r.Intn(2)]
+			for i, m := 0, 1+r.Intn(3); i < m; i++ {
+				cs.Ops = append(cs.Ops, "c14 ws t1 q1 "+path+" "+enc(g.okstr()))
+			}
+			cs.Ops = append(cs.Ops, "c14 ws t1 q1 "+path+" "+enc("slow"))
+			c.Count("ws:slow")
+			for i, m := 0, 2+r.Intn(3); i < m; i++ {
+				cs.Ops = append(cs.Ops, "c14 ws t1 q1 "+path+" "+enc(g.okstr()))
+			}
+			emit(cs)
+		}
 
 		// many threads share one single-use client and one path: every Send closes the
 		// connection, the next one dials again; the per-destination lock must survive that
